@@ -4,6 +4,7 @@ import M3d.Model.MeshOps
 import M3d.Model.BlurIter
 import M3d.Model.DeformTargets
 import M3d.Model.ArapOp
+import M3d.Drv.C10Lin
 /-!
 Line-protocol handler for C10.  Core-only.
 
@@ -254,6 +255,11 @@ def handleArapOp (l : Line) : Option String := do
 
 def handle3 (l : Line) : Option String := do
   if l.kind == "arapop3" then return (← handleArapOp l)
+  if l.kind == "araplin3" then
+    -- the linear step of ARAP (`M3d.ArapLin`, `M3d/Drv/C10Lin.lean`)
+    if l.status ≠ "ok" then
+      return (if l.status = "timeout" then "FAIL terminates=0" else "FAIL no-panic=0")
+    return (← C10Lin.handle l.params (← l.inp.mapM parseTri))
   let inp ← l.inp.mapM parseTri
   if l.status ≠ "ok" then
     return (if l.status = "timeout" then "FAIL terminates=0" else "FAIL no-panic=0")
